@@ -1,4 +1,316 @@
+//! C14 — the default engine runs only SIMD code the CPU reports and picks the best.
+//! The quantifier (all subsets of the SIMD features the crate knows for the architecture, as seen by
+//! runtime detection) is enumerated completely: one fresh process per feature mask, in which an
+//! operation alphabet over everything built on DefaultEngine is executed and the trace of
+//! target_feature entry points is checked after every operation.
+use std::process::Command;
+
+use crate::core::*;
+use crate::json::J;
+use crate::kv::*;
+use crate::prim::*;
 use crate::report::*;
-pub fn run(_ctx: &Ctx, rep: &mut Report) { rep.machinery_errors.push("not implemented".into()); }
-pub fn replay(_ctx: &Ctx, _case: &str) -> Result<(), String> { Err("not implemented".into()) }
-pub fn child(_args: &[String]) {}
+use reed_solomon_simd::engine::{DefaultEngine, Engine};
+use reed_solomon_simd::rate::{DefaultRateDecoder, DefaultRateEncoder, RateDecoder, RateEncoder};
+use reed_solomon_simd::verif_hooks as vh;
+
+type DefaultAarch64 = crate::default_aarch64_port::DefaultEngine;
+
+const ISA_NAMES: [&str; 4] = ["portable", "ssse3", "avx2", "neon"];
+const PRIM_NAMES: [&str; 4] = ["mul", "fft", "ifft", "eval_poly"];
+
+fn best_isa_x86(mask: u32) -> usize {
+    if mask & vh::FEATURE_AVX2 != 0 && std::is_x86_feature_detected!("avx2") {
+        vh::ISA_AVX2
+    } else if mask & vh::FEATURE_SSSE3 != 0 && std::is_x86_feature_detected!("ssse3") {
+        vh::ISA_SSSE3
+    } else {
+        vh::ISA_PORTABLE
+    }
+}
+
+/// check the trace of one operation group: everything that ran must have run on `best`
+fn judge(name: &str, best: usize, must_run: &[usize]) -> Result<String, String> {
+    let t = vh::trace_snapshot();
+    vh::trace_reset();
+    let mut desc = Vec::new();
+    for isa in 0..vh::ISA_COUNT {
+        for prim in 0..vh::PRIM_COUNT {
+            if t[isa][prim] > 0 {
+                desc.push(format!("{}:{}x{}", ISA_NAMES[isa], PRIM_NAMES[prim], t[isa][prim]));
+                if isa != best {
+                    return Err(format!("{name}: primitive {} executed code compiled for '{}' {} times although the best reported ISA is '{}'", PRIM_NAMES[prim], ISA_NAMES[isa], t[isa][prim], ISA_NAMES[best]));
+                }
+            }
+        }
+    }
+    for &p in must_run {
+        if t[best][p] == 0 {
+            return Err(format!("{name}: primitive {} was expected to run on '{}' but its entry point was never reached (trace: {desc:?})", PRIM_NAMES[p], ISA_NAMES[best]));
+        }
+    }
+    Ok(format!("{name}[{}]", desc.join(",")))
+}
+
+fn hash_shards(h: &mut u64, v: &[Vec<u8>]) {
+    for s in v {
+        *h = (*h ^ fnv(s)).wrapping_mul(0x100_0000_01b3);
+    }
+}
+
+/// child process: args = [arch, mask, seed]
+pub fn child(args: &[String]) {
+    let arch = args[0].as_str();
+    let mask: u32 = args[1].parse().unwrap();
+    let seed: u64 = args[2].parse().unwrap();
+    vh::set_feature_mask(mask);
+    vh::trace_reset();
+    let mut log: Vec<String> = Vec::new();
+    let mut digest: u64 = 0xcbf2_9ce4_8422_2325;
+    let mut fail: Option<String> = None;
+    let mut step = |r: Result<String, String>, log: &mut Vec<String>, fail: &mut Option<String>| match r {
+        Ok(s) => log.push(s),
+        Err(e) => {
+            if fail.is_none() {
+                *fail = Some(e);
+            }
+        }
+    };
+    let res = guard(|| {
+        if arch == "x86" {
+            let best = best_isa_x86(mask);
+            // --- primitives on the engine object
+            let e = DefaultEngine::new();
+            step(judge("DefaultEngine::new", best, &[]), &mut log, &mut fail);
+            let mut rng = Rng::new(seed);
+            let mut buf = Buf::random(16, 2, &mut rng);
+            e.fft(&mut buf.refmut(), 0, 8, 8, 8);
+            step(judge("fft", best, &[vh::PRIM_FFT]), &mut log, &mut fail);
+            e.ifft(&mut buf.refmut(), 8, 8, 5, 16);
+            step(judge("ifft", best, &[vh::PRIM_IFFT]), &mut log, &mut fail);
+            e.mul(&mut buf.data[0..2], 12345);
+            step(judge("mul", best, &[vh::PRIM_MUL]), &mut log, &mut fail);
+            digest ^= fnv(buf.data.as_flattened());
+            let ep = eval_poly_of::<DefaultEngine>(&[1, 5, 9], 16);
+            step(judge("DefaultEngine::eval_poly", best, &[vh::PRIM_EVAL_POLY]), &mut log, &mut fail);
+            digest = (digest ^ fnv(&ep.iter().flat_map(|x| x.to_le_bytes()).collect::<Vec<u8>>())).wrapping_mul(31);
+            // --- ReedSolomonEncoder / Decoder, both rates, reset across rates
+            for (k, r) in [(5usize, 3usize), (3, 5), (2, 9)] {
+                let originals = data_dense(k, 66, seed);
+                let mut enc = reed_solomon_simd::ReedSolomonEncoder::new(2, 2, 64).unwrap();
+                enc.reset(k, r, 66).unwrap();
+                for o in &originals {
+                    enc.add_original_shard(o).unwrap();
+                }
+                let rec: Vec<Vec<u8>> = enc.encode().unwrap().recovery_iter().map(|s| s.to_vec()).collect();
+                step(judge(&format!("ReedSolomonEncoder({k},{r})"), best, &[vh::PRIM_FFT, vh::PRIM_IFFT]), &mut log, &mut fail);
+                hash_shards(&mut digest, &rec);
+                let mut dec = reed_solomon_simd::ReedSolomonDecoder::new(2, 2, 64).unwrap();
+                dec.reset(k, r, 66).unwrap();
+                let m = k.min(r);
+                for j in 0..m {
+                    dec.add_recovery_shard(j, &rec[j]).unwrap();
+                }
+                for i in m..k {
+                    dec.add_original_shard(i, &originals[i]).unwrap();
+                }
+                let restored: Vec<Vec<u8>> = dec.decode().unwrap().restored_original_iter().map(|(_, s)| s.to_vec()).collect();
+                step(judge(&format!("ReedSolomonDecoder({k},{r})"), best, &[vh::PRIM_FFT, vh::PRIM_IFFT, vh::PRIM_MUL, vh::PRIM_EVAL_POLY]), &mut log, &mut fail);
+                hash_shards(&mut digest, &restored);
+                if restored != originals[..m].to_vec() && fail.is_none() {
+                    fail = Some(format!("ReedSolomonDecoder({k},{r}) under mask {mask} restored wrong data"));
+                }
+            }
+            // --- one-shot
+            let originals = data_dense(3, 64, seed ^ 9);
+            let rec = reed_solomon_simd::encode(3, 2, &originals).unwrap();
+            step(judge("encode()", best, &[vh::PRIM_FFT, vh::PRIM_IFFT]), &mut log, &mut fail);
+            hash_shards(&mut digest, &rec);
+            let rest = reed_solomon_simd::decode(3, 2, [(1usize, &originals[1])], [(0usize, &rec[0]), (1, &rec[1])]).unwrap();
+            step(judge("decode()", best, &[vh::PRIM_FFT, vh::PRIM_IFFT, vh::PRIM_MUL, vh::PRIM_EVAL_POLY]), &mut log, &mut fail);
+            let mut keys: Vec<_> = rest.keys().copied().collect();
+            keys.sort();
+            for k in keys {
+                digest = (digest ^ fnv(&rest[&k])).wrapping_mul(131);
+            }
+            // --- rate codecs over DefaultEngine
+            let mut enc = DefaultRateEncoder::<DefaultEngine>::new(4, 4, 64, DefaultEngine::new(), None).unwrap();
+            let o = data_dense(4, 64, seed ^ 3);
+            for s in &o {
+                enc.add_original_shard(s).unwrap();
+            }
+            let rec: Vec<Vec<u8>> = enc.encode().unwrap().recovery_iter().map(|s| s.to_vec()).collect();
+            hash_shards(&mut digest, &rec);
+            let mut dec = DefaultRateDecoder::<DefaultEngine>::new(4, 4, 64, DefaultEngine::default(), None).unwrap();
+            for j in 0..4 {
+                dec.add_recovery_shard(j, &rec[j]).unwrap();
+            }
+            let restored: Vec<Vec<u8>> = dec.decode().unwrap().restored_original_iter().map(|(_, s)| s.to_vec()).collect();
+            hash_shards(&mut digest, &restored);
+            step(judge("DefaultRate<DefaultEngine> round", best, &[vh::PRIM_FFT, vh::PRIM_IFFT, vh::PRIM_MUL, vh::PRIM_EVAL_POLY]), &mut log, &mut fail);
+        } else {
+            // AArch64 selection logic, ported at build time over the emulated Neon engine
+            let best = if mask & vh::FEATURE_NEON != 0 { vh::ISA_NEON } else { vh::ISA_PORTABLE };
+            let e = DefaultAarch64::new();
+            step(judge("aarch64 DefaultEngine::new", best, &[]), &mut log, &mut fail);
+            let mut rng = Rng::new(seed);
+            let mut buf = Buf::random(16, 2, &mut rng);
+            e.fft(&mut buf.refmut(), 0, 8, 8, 8);
+            step(judge("aarch64 fft", best, &[vh::PRIM_FFT]), &mut log, &mut fail);
+            e.ifft(&mut buf.refmut(), 8, 8, 5, 16);
+            step(judge("aarch64 ifft", best, &[vh::PRIM_IFFT]), &mut log, &mut fail);
+            e.mul(&mut buf.data[0..2], 12345);
+            step(judge("aarch64 mul", best, &[vh::PRIM_MUL]), &mut log, &mut fail);
+            digest ^= fnv(buf.data.as_flattened());
+            let mut er: Box<[u16; 65536]> = vec![0u16; 65536].into_boxed_slice().try_into().unwrap();
+            er[1] = 1;
+            er[5] = 1;
+            er[9] = 1;
+            DefaultAarch64::eval_poly(&mut er, 16);
+            step(judge("aarch64 DefaultEngine::eval_poly", best, &[vh::PRIM_EVAL_POLY]), &mut log, &mut fail);
+            digest = (digest ^ fnv(&er.iter().flat_map(|x| x.to_le_bytes()).collect::<Vec<u8>>())).wrapping_mul(31);
+            for (k, r) in [(5usize, 3usize), (3, 5)] {
+                let originals = data_dense(k, 66, seed);
+                let mut enc = DefaultRateEncoder::<DefaultAarch64>::new(k, r, 66, DefaultAarch64::new(), None).unwrap();
+                for o in &originals {
+                    enc.add_original_shard(o).unwrap();
+                }
+                let rec: Vec<Vec<u8>> = enc.encode().unwrap().recovery_iter().map(|s| s.to_vec()).collect();
+                hash_shards(&mut digest, &rec);
+                let mut dec = DefaultRateDecoder::<DefaultAarch64>::new(k, r, 66, DefaultAarch64::default(), None).unwrap();
+                let m = k.min(r);
+                for j in 0..m {
+                    dec.add_recovery_shard(j, &rec[j]).unwrap();
+                }
+                for i in m..k {
+                    dec.add_original_shard(i, &originals[i]).unwrap();
+                }
+                let restored: Vec<Vec<u8>> = dec.decode().unwrap().restored_original_iter().map(|(_, s)| s.to_vec()).collect();
+                hash_shards(&mut digest, &restored);
+                step(judge(&format!("aarch64 DefaultRate({k},{r}) round"), best, &[vh::PRIM_FFT, vh::PRIM_IFFT, vh::PRIM_MUL, vh::PRIM_EVAL_POLY]), &mut log, &mut fail);
+                if restored != originals[..m].to_vec() && fail.is_none() {
+                    fail = Some(format!("aarch64 DefaultRate({k},{r}) under mask {mask} restored wrong data"));
+                }
+            }
+        }
+    });
+    if let Err(p) = res {
+        if fail.is_none() {
+            fail = Some(format!("PANIC: {p}"));
+        }
+    }
+    let mut j = J::obj();
+    j.set("arch", J::s(arch));
+    j.set("mask", J::i(mask));
+    j.set("digest", J::s(format!("{digest:016x}")));
+    j.set("groups", J::arr_s(log));
+    j.set("fail", match fail {
+        Some(f) => J::s(f),
+        None => J::Null,
+    });
+    println!("C14CHILD {}", j.dump().replace('\n', " "));
+}
+
+fn spawn(arch: &str, mask: u32, seed: u64) -> Result<J, String> {
+    let exe = std::env::current_exe().map_err(|e| e.to_string())?;
+    let out = Command::new(exe).args(["C14-CHILD", arch, &mask.to_string(), &seed.to_string()]).output().map_err(|e| e.to_string())?;
+    let txt = String::from_utf8_lossy(&out.stdout).to_string();
+    let line = txt.lines().find(|l| l.starts_with("C14CHILD ")).ok_or_else(|| format!("child produced no result (status {:?}): {} {}", out.status, txt, String::from_utf8_lossy(&out.stderr)))?;
+    J::parse(&line["C14CHILD ".len()..])
+}
+
+fn mask_name(arch: &str, mask: u32) -> String {
+    let mut v = Vec::new();
+    if arch == "x86" {
+        if mask & vh::FEATURE_AVX2 != 0 {
+            v.push("avx2");
+        }
+        if mask & vh::FEATURE_SSSE3 != 0 {
+            v.push("ssse3");
+        }
+    } else if mask & vh::FEATURE_NEON != 0 {
+        v.push("neon");
+    }
+    if v.is_empty() {
+        "none".into()
+    } else {
+        v.join("+")
+    }
+}
+
+pub fn replay(ctx: &Ctx, case: &str) -> Result<(), String> {
+    let kv = Kv::parse(case)?;
+    let j = spawn(kv.str("arch"), kv.usize("mask") as u32, ctx.seed)?;
+    match j.get("fail") {
+        Some(J::Str(f)) => Err(f.clone()),
+        _ => Ok(()),
+    }
+}
+
+pub fn run(ctx: &Ctx, rep: &mut Report) {
+    rep.rule = "one fresh process per subset of {AVX2, SSSE3} (x86 arm, this CPU) and of {Neon} (AArch64 arm of DefaultEngine, ported at build time over the emulated Neon engine); in each, every operation of the alphabet (engine construction, fft, ifft, mul, DefaultEngine::eval_poly, ReedSolomonEncoder/Decoder rounds with resets across rates, one-shot encode/decode, DefaultRate<DefaultEngine> round) is followed by a check of the ISA trace: only the best reported ISA may have executed, for every primitive; results must be identical under every subset; non-trivial = (mask, operation) pairs; distinct by (arch, mask, operation)".into();
+    rep.assume("the mask can only hide features this CPU has; which entry points are reached is observed through trace points placed in every #[target_feature] function, NoSimd's Engine methods and the provided Engine::eval_poly");
+    rep.assume("a new target_feature entry point without a trace line would be invisible to this check");
+    let has_avx2 = std::is_x86_feature_detected!("avx2");
+    let has_ssse3 = std::is_x86_feature_detected!("ssse3");
+    rep.extra("cpu_avx2", J::Bool(has_avx2));
+    rep.extra("cpu_ssse3", J::Bool(has_ssse3));
+    let mut plans: Vec<(&str, u32)> = Vec::new();
+    for mask in [0u32, vh::FEATURE_SSSE3, vh::FEATURE_AVX2, vh::FEATURE_AVX2 | vh::FEATURE_SSSE3] {
+        plans.push(("x86", mask));
+    }
+    for mask in [0u32, vh::FEATURE_NEON] {
+        plans.push(("aarch64", mask));
+    }
+    let results: Vec<Result<J, String>> = par_for(plans.len(), 1, |i| spawn(plans[i].0, plans[i].1, ctx.seed));
+    let mut digests: std::collections::BTreeMap<String, Vec<(u32, String)>> = Default::default();
+    for ((arch, mask), res) in plans.iter().zip(results) {
+        rep.states += 1;
+        match res {
+            Err(e) => rep.machinery_errors.push(format!("C14 child {arch}/{mask}: {e}")),
+            Ok(j) => {
+                let groups = match j.get("groups") {
+                    Some(J::Arr(a)) => a.len(),
+                    _ => 0,
+                };
+                rep.transitions += groups as u64;
+                rep.evaluations += groups as u64;
+                rep.distinct += groups as u64;
+                rep.traces += 1;
+                if let Some(J::Arr(a)) = j.get("groups") {
+                    if let Some(J::Str(s)) = a.get(a.len() / 2) {
+                        rep.sample(format!("arch={arch} mask={} {}", mask_name(arch, *mask), s));
+                    }
+                    // positive controls
+                    let all: String = a.iter().filter_map(|x| x.as_str()).collect::<Vec<_>>().join(" ");
+                    if *arch == "x86" {
+                        if *mask & vh::FEATURE_AVX2 != 0 && has_avx2 && !all.contains("avx2:") {
+                            rep.machinery_errors.push("positive control failed: full mask but no AVX2 entry point in the trace".into());
+                        }
+                        if *mask == 0 && (all.contains("avx2:") || all.contains("ssse3:") || !all.contains("portable:")) {
+                            // that is a real violation and is reported by the child; nothing to add
+                        }
+                    } else if *mask & vh::FEATURE_NEON != 0 && !all.contains("neon:") {
+                        rep.machinery_errors.push("positive control failed: neon mask but no Neon entry point in the trace".into());
+                    }
+                }
+                if let Some(J::Str(f)) = j.get("fail") {
+                    rep.violation(Violation { key: format!("{arch}-mask-{}", mask_name(arch, *mask)), case: Kv::new().with("arch", arch).with("mask", mask).dump(), expected: format!("under feature set {{{}}} only the best reported ISA executes, for every primitive", mask_name(arch, *mask)), observed: f.clone() });
+                }
+                if let Some(J::Str(d)) = j.get("digest") {
+                    digests.entry(arch.to_string()).or_default().push((*mask, d.clone()));
+                }
+            }
+        }
+    }
+    for (arch, ds) in &digests {
+        if let Some((m0, d0)) = ds.first() {
+            for (m, d) in ds {
+                if d != d0 {
+                    rep.violation(Violation { key: format!("{arch}-results-differ-{}", mask_name(arch, *m)), case: Kv::new().with("arch", arch).with("mask", m).dump(), expected: format!("results under {{{}}} identical to results under {{{}}}", mask_name(arch, *m), mask_name(arch, *m0)), observed: format!("digest {d} vs {d0}") });
+                }
+            }
+        }
+    }
+    rep.bound("masks", J::s("x86: {}, {ssse3}, {avx2}, {avx2,ssse3}; aarch64 (ported): {}, {neon} - the whole quantifier"));
+}
